@@ -19,8 +19,9 @@ func init() {
 		Title: "Wire encoding round-trips for every message type and version",
 		Explain: "Decides shape agreement, not value equality: for every type that has both encode and decode and for every protocol version 0..max+1 mentioned in its code, the language of wire-token sequences its encoder can emit is included in the language its decoder accepts — automata are built from the SSA control-flow graphs, nested encode/decode calls spliced in, version branches evaluated, data branches non-deterministic (C09.mirror); push/pop are balanced on every successful path (C09.balance); allocateBody maps every key to a type with that key and every sendAndReceive pairs a request and a response of the same API key (C09.keys); " +
 			"for every put* method the sizing pass (prepEncoder) and the writing pass (realEncoder) account for the same number of bytes, compared as symbolic linear forms per argument condition (C09.prep-real); length and CRC fields are written and checked over the same byte range with the same polynomial per container (C09.crc-len, the polynomial via C09.mirror tokens). " +
+			"no encoding step whose error is non-nil is answered with `return nil` or ignored (C09.enc-err, 338 steps). " +
 			"NOT covered: value-level equality (which bytes), compression codecs, varint arithmetic, agreement with the Kafka specification itself.",
-		Rules: []func(*Ctx){c09Mirror, c09Order, c09Balance, c09Keys, c09PrepReal, c09Null, c09CrcLen},
+		Rules: []func(*Ctx){c09Mirror, c09Order, c09Balance, c09Keys, c09PrepReal, c09Null, c09CrcLen, c09EncErr},
 	})
 }
 
@@ -752,5 +753,64 @@ func c09Null(c *Ctx) {
 			c.Check(g1, rule, fn, "nil-only-for-null-marker", r.Instr(), "a nil value is returned (without error) only behind the test for the null marker", name+" can return a nil value for a non-null length", path)
 		}
 		_ = n
+	}
+}
+
+// c09EncErr: an encoding step that reports an error (a string or array too long for its length prefix, a
+// nested encode that failed) must not be answered with success: the request would go out truncated.
+func c09EncErr(c *Ctx) {
+	p := c.P
+	rule := "C09.enc-err"
+	c.Doc(rule, "every call of a packetEncoder/pushEncoder method or nested encode that returns an error, anywhere in the package outside the mock broker: the error is looked at, and after it was found non-nil no `return nil` is reachable")
+	c.Floor(rule, 300)
+	for _, fn := range p.Fns {
+		if fn.Pkg != p.Sarama || p.inFile(fn, "mockbroker.go") || p.inFile(fn, "mockresponses.go") {
+			continue
+		}
+		fi := Info(fn)
+		reg := WholeFn(fn)
+		fi.Each(func(it Item) {
+			cl, ok := it.In.(*ssa.Call)
+			if !ok {
+				return
+			}
+			enc := false
+			if cl.Call.IsInvoke() {
+				nn, _ := NamedOf(cl.Call.Value.Type())
+				enc = nn == "packetEncoder" || nn == "pushEncoder" || nn == "dynamicPushEncoder" || nn == "encoder" || nn == "encoderWithHeader" || (nn == "protocolBody" && cl.Call.Method.Name() == "encode")
+			} else if cal := cl.Call.StaticCallee(); cal != nil && cal.Name() == "encode" && cal.Pkg == p.Sarama {
+				enc = true
+			}
+			if !enc {
+				return
+			}
+			res := cl.Call.Signature().Results()
+			if res.Len() == 0 || res.At(res.Len()-1).Type().String() != "error" {
+				return
+			}
+			var errV ssa.Value = cl
+			if res.Len() > 1 {
+				errV = nil
+				for _, r := range *cl.Referrers() {
+					if ex, ok := r.(*ssa.Extract); ok && ex.Index == res.Len()-1 {
+						errV = ex
+					}
+				}
+			}
+			if errV == nil || len(*errV.Referrers()) == 0 {
+				c.Fail(rule, fn, "ignored:"+p.CalleeName(&cl.Call), cl, "the error of an encoding step is never looked at: an over-long string or array is cut off silently and the peer reads garbage", nil)
+				return
+			}
+			bad := false
+			var path []*ssa.BasicBlock
+			if fn.Signature.Results().Len() > 0 {
+				for _, e := range reg.EstablishingEdges(Cmp{token.NEQ, Same(errV), IsNil()}) {
+					if r, pth := reg.From(Pt{e.To, 0}).Reach(ReturnNilErr(), nil); !r.IsZero() {
+						bad, path = true, pth
+					}
+				}
+			}
+			c.Check(!bad, rule, fn, "err:"+p.CalleeName(&cl.Call), cl, "a failure of this encoding step is never answered with success", "the function returns nil although this encoding step failed: a request or record that could not be encoded completely is sent as if it were", path)
+		})
 	}
 }
